@@ -179,3 +179,55 @@ Proof.
   rewrite to_signed_wrap by lia. split; [reflexivity|]. split; [exact Hbd|]. exact Hsg.
 Qed.
 
+(* -- SIGNEXTEND: bit-level reading ----------------------------------------------------------------
+   below the sign position 8(b+1)-1 the bits of x are kept; from there up to bit 255 every bit is the sign bit *)
+Lemma spec_signextend_bits b x i : 0 <= b < 31 -> in_word x -> 0 <= i < 256 ->
+  Z.testbit (evm_signextend b x) i =
+    if i <? 8 * (b + 1) then Z.testbit x i else Z.testbit x (8 * (b + 1) - 1).
+Proof.
+  intros Hb Hx Hi. unfold evm_signextend. replace (b <? 31) with true by lia. cbv zeta.
+  set (n := 8 * (b + 1)). assert (Hn : 8 <= n <= 248) by (unfold n; lia).
+  assert (Hpn : 0 < 2 ^ n) by (apply Z.pow_pos_nonneg; lia).
+  assert (Hlow : 0 <= x mod 2 ^ n < 2 ^ n) by (apply Z.mod_pos_bound; exact Hpn).
+  assert (Hh : 0 < 2 ^ (n - 1)) by (apply Z.pow_pos_nonneg; lia).
+  assert (E2 : 2 ^ n = 2 * 2 ^ (n - 1)).
+  { replace n with (Z.succ (n - 1)) at 1 by lia. apply Z.pow_succ_r; lia. }
+  assert (Hsign : Z.testbit x (n - 1) = negb (x mod 2 ^ n <? 2 ^ (n - 1))).
+  { rewrite <- (Z.mod_pow2_bits_low x n (n - 1)) by lia.
+    rewrite Z.testbit_eqb by lia.
+    destruct (x mod 2 ^ n <? 2 ^ (n - 1)) eqn:E; cbn [negb].
+    - rewrite Z.div_small by lia. reflexivity.
+    - replace (x mod 2 ^ n / 2 ^ (n - 1)) with 1; [reflexivity|].
+      apply Z.div_unique with (x mod 2 ^ n - 2 ^ (n - 1)); lia. }
+  destruct (x mod 2 ^ n <? 2 ^ (n - 1)) eqn:E.
+  - destruct (i <? n) eqn:Ei.
+    + apply Z.mod_pow2_bits_low; lia.
+    + rewrite Z.mod_pow2_bits_high by lia. rewrite Hsign. reflexivity.
+  - assert (EW : W - 2 ^ n = Z.ones (256 - n) * 2 ^ n).
+    { rewrite Z.ones_equiv, W_val. rewrite <- Z.sub_1_r. rewrite Z.mul_sub_distr_r.
+      rewrite <- Z.pow_add_r by lia. replace (256 - n + n) with 256 by lia. lia. }
+    rewrite EW.
+    destruct (i <? n) eqn:Ei.
+    + rewrite <- (Z.mod_pow2_bits_low (x mod 2 ^ n + Z.ones (256 - n) * 2 ^ n) n i) by lia.
+      rewrite Z.mod_add by lia. rewrite Z.mod_mod by lia.
+      apply Z.mod_pow2_bits_low; lia.
+    + rewrite Hsign. cbn [negb].
+      replace i with ((i - n) + n) by lia.
+      rewrite <- Z.div_pow2_bits by lia.
+      rewrite Z.div_add by lia. rewrite Z.div_small by lia. rewrite Z.add_0_l.
+      apply Z.ones_spec_low; lia.
+Qed.
+
+(* b >= 31: identity *)
+Lemma spec_signextend_id b x : 31 <= b -> evm_signextend b x = x.
+Proof. intros H. unfold evm_signextend. replace (b <? 31) with false by lia. reflexivity. Qed.
+
+Lemma spec_signextend_closed b x : 0 <= b -> in_word x -> in_word (evm_signextend b x).
+Proof.
+  intros Hb Hx. unfold evm_signextend. destruct (b <? 31) eqn:Eb; [|exact Hx]. cbv zeta.
+  set (n := 8 * (b + 1)). assert (Hn : 8 <= n <= 248) by (unfold n; lia).
+  assert (Hpn : 0 < 2 ^ n) by (apply Z.pow_pos_nonneg; lia).
+  assert (Hlow : 0 <= x mod 2 ^ n < 2 ^ n) by (apply Z.mod_pos_bound; exact Hpn).
+  assert (2 ^ n < W). { rewrite W_val. apply Z.pow_lt_mono_r; lia. }
+  unfold in_word. destruct (x mod 2 ^ n <? 2 ^ (n - 1)); lia.
+Qed.
